@@ -123,11 +123,10 @@ Causes(V, nd) ==
 Validate(V, d, nd) == Causes([V EXCEPT ![d] = nd], nd) \ {"ok"}      \* {} = accepted; the cache is seeded with next
 
 \* what a user of a managed document relies on: Resolve(MakeServiceReference(d, t), default) succeeds, and every
-\* reference in a compound service can be followed by GetCompoundServiceEndpoint
+\* reference in a compound service of the document can be followed by GetCompoundServiceEndpoint
 Resolvable(V, d, t) ==
-    LET r == Res(V, d, t, 0, DefaultDepth) IN
-    /\ r.v = "ok"
-    /\ r.e.k = "map" => \A n \in DOMAIN r.e.m : CheckEndpoint(V, r.e.m[n], 0) = "ok"
+    /\ Res(V, d, t, 0, DefaultDepth).v = "ok"
+    /\ V[d].svc[t].k = "map" => \A n \in DOMAIN V[d].svc[t].m : CheckEndpoint(V, V[d].svc[t].m[n], 0) = "ok"
 Unresolvable(V) == {<<d, t>> \in Managed \X Types : V[d].st = "active" /\ HasSvc(V[d], t) /\ ~Resolvable(V, d, t)}
 
 \* didman.referencedService
